@@ -187,18 +187,24 @@ Proofs/RefFacts.vos Proofs/RefFacts.vok Proofs/RefFacts.required_vos: Proofs/Ref
 Proofs/C09Facts.vo Proofs/C09Facts.glob Proofs/C09Facts.v.beautified Proofs/C09Facts.required_vo: Proofs/C09Facts.v Base/Result.vo Base/AstOp.vo Model/Ast.vo Model/FM.vo Model/PFM.vo Format/Json.vo Format/Glencoe.vo Format/Afm.vo
 Proofs/C09Facts.vio: Proofs/C09Facts.v Base/Result.vio Base/AstOp.vio Model/Ast.vio Model/FM.vio Model/PFM.vio Format/Json.vio Format/Glencoe.vio Format/Afm.vio
 Proofs/C09Facts.vos Proofs/C09Facts.vok Proofs/C09Facts.required_vos: Proofs/C09Facts.v Base/Result.vos Base/AstOp.vos Model/Ast.vos Model/FM.vos Model/PFM.vos Format/Json.vos Format/Glencoe.vos Format/Afm.vos
-Props/C09.vo Props/C09.glob Props/C09.v.beautified Props/C09.required_vo: Props/C09.v Base/Result.vo Base/AstOp.vo Model/Ast.vo Model/FM.vo Model/PFM.vo Format/Xml.vo Format/Ref.vo Proofs/FideFacts.vo Proofs/RefFacts.vo Proofs/C09Facts.vo Format/Json.vo Format/Glencoe.vo Format/Afm.vo
-Props/C09.vio: Props/C09.v Base/Result.vio Base/AstOp.vio Model/Ast.vio Model/FM.vio Model/PFM.vio Format/Xml.vio Format/Ref.vio Proofs/FideFacts.vio Proofs/RefFacts.vio Proofs/C09Facts.vio Format/Json.vio Format/Glencoe.vio Format/Afm.vio
-Props/C09.vos Props/C09.vok Props/C09.required_vos: Props/C09.v Base/Result.vos Base/AstOp.vos Model/Ast.vos Model/FM.vos Model/PFM.vos Format/Xml.vos Format/Ref.vos Proofs/FideFacts.vos Proofs/RefFacts.vos Proofs/C09Facts.vos Format/Json.vos Format/Glencoe.vos Format/Afm.vos
+Proofs/AfmVariant.vo Proofs/AfmVariant.glob Proofs/AfmVariant.v.beautified Proofs/AfmVariant.required_vo: Proofs/AfmVariant.v Base/Result.vo Base/AstOp.vo Model/Ast.vo Model/FM.vo Model/PFM.vo Format/Afm.vo Proofs/C09Facts.vo
+Proofs/AfmVariant.vio: Proofs/AfmVariant.v Base/Result.vio Base/AstOp.vio Model/Ast.vio Model/FM.vio Model/PFM.vio Format/Afm.vio Proofs/C09Facts.vio
+Proofs/AfmVariant.vos Proofs/AfmVariant.vok Proofs/AfmVariant.required_vos: Proofs/AfmVariant.v Base/Result.vos Base/AstOp.vos Model/Ast.vos Model/FM.vos Model/PFM.vos Format/Afm.vos Proofs/C09Facts.vos
+Props/C09.vo Props/C09.glob Props/C09.v.beautified Props/C09.required_vo: Props/C09.v Base/Result.vo Base/AstOp.vo Model/Ast.vo Model/FM.vo Model/PFM.vo Format/Xml.vo Format/Ref.vo Proofs/FideFacts.vo Proofs/RefFacts.vo Proofs/C09Facts.vo Proofs/AfmVariant.vo Format/Json.vo Format/Glencoe.vo Format/Afm.vo
+Props/C09.vio: Props/C09.v Base/Result.vio Base/AstOp.vio Model/Ast.vio Model/FM.vio Model/PFM.vio Format/Xml.vio Format/Ref.vio Proofs/FideFacts.vio Proofs/RefFacts.vio Proofs/C09Facts.vio Proofs/AfmVariant.vio Format/Json.vio Format/Glencoe.vio Format/Afm.vio
+Props/C09.vos Props/C09.vok Props/C09.required_vos: Props/C09.v Base/Result.vos Base/AstOp.vos Model/Ast.vos Model/FM.vos Model/PFM.vos Format/Xml.vos Format/Ref.vos Proofs/FideFacts.vos Proofs/RefFacts.vos Proofs/C09Facts.vos Proofs/AfmVariant.vos Format/Json.vos Format/Glencoe.vos Format/Afm.vos
 Proofs/UvlFacts.vo Proofs/UvlFacts.glob Proofs/UvlFacts.v.beautified Proofs/UvlFacts.required_vo: Proofs/UvlFacts.v Base/Result.vo Base/Str.vo Base/AstOp.vo Gen/Tables_core.vo Model/Ast.vo Model/FM.vo Model/PFM.vo Model/Queries.vo Model/Sem.vo Format/Json.vo Format/Glencoe.vo Format/Xml.vo Gen/Tables_uvl.vo Format/Uvl.vo Proofs/JsonFacts.vo
 Proofs/UvlFacts.vio: Proofs/UvlFacts.v Base/Result.vio Base/Str.vio Base/AstOp.vio Gen/Tables_core.vio Model/Ast.vio Model/FM.vio Model/PFM.vio Model/Queries.vio Model/Sem.vio Format/Json.vio Format/Glencoe.vio Format/Xml.vio Gen/Tables_uvl.vio Format/Uvl.vio Proofs/JsonFacts.vio
 Proofs/UvlFacts.vos Proofs/UvlFacts.vok Proofs/UvlFacts.required_vos: Proofs/UvlFacts.v Base/Result.vos Base/Str.vos Base/AstOp.vos Gen/Tables_core.vos Model/Ast.vos Model/FM.vos Model/PFM.vos Model/Queries.vos Model/Sem.vos Format/Json.vos Format/Glencoe.vos Format/Xml.vos Gen/Tables_uvl.vos Format/Uvl.vos Proofs/JsonFacts.vos
+Proofs/UvlVariant.vo Proofs/UvlVariant.glob Proofs/UvlVariant.v.beautified Proofs/UvlVariant.required_vo: Proofs/UvlVariant.v Base/Result.vo Base/Str.vo Base/AstOp.vo Gen/Tables_core.vo Model/Ast.vo Model/FM.vo Model/PFM.vo Model/Queries.vo Format/Json.vo Format/Glencoe.vo Format/Xml.vo Gen/Tables_uvl.vo Format/Uvl.vo Proofs/JsonFacts.vo Proofs/UvlFacts.vo
+Proofs/UvlVariant.vio: Proofs/UvlVariant.v Base/Result.vio Base/Str.vio Base/AstOp.vio Gen/Tables_core.vio Model/Ast.vio Model/FM.vio Model/PFM.vio Model/Queries.vio Format/Json.vio Format/Glencoe.vio Format/Xml.vio Gen/Tables_uvl.vio Format/Uvl.vio Proofs/JsonFacts.vio Proofs/UvlFacts.vio
+Proofs/UvlVariant.vos Proofs/UvlVariant.vok Proofs/UvlVariant.required_vos: Proofs/UvlVariant.v Base/Result.vos Base/Str.vos Base/AstOp.vos Gen/Tables_core.vos Model/Ast.vos Model/FM.vos Model/PFM.vos Model/Queries.vos Format/Json.vos Format/Glencoe.vos Format/Xml.vos Gen/Tables_uvl.vos Format/Uvl.vos Proofs/JsonFacts.vos Proofs/UvlFacts.vos
 Props/C01.vo Props/C01.glob Props/C01.v.beautified Props/C01.required_vo: Props/C01.v Base/Result.vo Model/Ast.vo Model/FM.vo Model/PFM.vo Model/Sem.vo Format/Uvl.vo Proofs/UvlFacts.vo
 Props/C01.vio: Props/C01.v Base/Result.vio Model/Ast.vio Model/FM.vio Model/PFM.vio Model/Sem.vio Format/Uvl.vio Proofs/UvlFacts.vio
 Props/C01.vos Props/C01.vok Props/C01.required_vos: Props/C01.v Base/Result.vos Model/Ast.vos Model/FM.vos Model/PFM.vos Model/Sem.vos Format/Uvl.vos Proofs/UvlFacts.vos
-Props/C04.vo Props/C04.glob Props/C04.v.beautified Props/C04.required_vo: Props/C04.v Base/Result.vo Base/Str.vo Model/Ast.vo Model/FM.vo Model/PFM.vo Format/Uvl.vo Proofs/UvlFacts.vo
-Props/C04.vio: Props/C04.v Base/Result.vio Base/Str.vio Model/Ast.vio Model/FM.vio Model/PFM.vio Format/Uvl.vio Proofs/UvlFacts.vio
-Props/C04.vos Props/C04.vok Props/C04.required_vos: Props/C04.v Base/Result.vos Base/Str.vos Model/Ast.vos Model/FM.vos Model/PFM.vos Format/Uvl.vos Proofs/UvlFacts.vos
+Props/C04.vo Props/C04.glob Props/C04.v.beautified Props/C04.required_vo: Props/C04.v Base/Result.vo Base/Str.vo Model/Ast.vo Model/FM.vo Model/PFM.vo Format/Uvl.vo Proofs/UvlFacts.vo Proofs/UvlVariant.vo
+Props/C04.vio: Props/C04.v Base/Result.vio Base/Str.vio Model/Ast.vio Model/FM.vio Model/PFM.vio Format/Uvl.vio Proofs/UvlFacts.vio Proofs/UvlVariant.vio
+Props/C04.vos Props/C04.vok Props/C04.required_vos: Props/C04.v Base/Result.vos Base/Str.vos Model/Ast.vos Model/FM.vos Model/PFM.vos Format/Uvl.vos Proofs/UvlFacts.vos Proofs/UvlVariant.vos
 Props/C02.vo Props/C02.glob Props/C02.v.beautified Props/C02.required_vo: Props/C02.v Base/Result.vo Model/Ast.vo Model/FM.vo Model/PFM.vo Format/Json.vo Format/Glencoe.vo Format/Xml.vo Format/Uvl.vo Format/Afm.vo Proofs/JsonFacts.vo Proofs/GlencoeFacts.vo Proofs/FideFacts.vo Proofs/FamaFacts.vo Proofs/UvlFacts.vo Proofs/AfmFacts.vo
 Props/C02.vio: Props/C02.v Base/Result.vio Model/Ast.vio Model/FM.vio Model/PFM.vio Format/Json.vio Format/Glencoe.vio Format/Xml.vio Format/Uvl.vio Format/Afm.vio Proofs/JsonFacts.vio Proofs/GlencoeFacts.vio Proofs/FideFacts.vio Proofs/FamaFacts.vio Proofs/UvlFacts.vio Proofs/AfmFacts.vio
 Props/C02.vos Props/C02.vok Props/C02.required_vos: Props/C02.v Base/Result.vos Model/Ast.vos Model/FM.vos Model/PFM.vos Format/Json.vos Format/Glencoe.vos Format/Xml.vos Format/Uvl.vos Format/Afm.vos Proofs/JsonFacts.vos Proofs/GlencoeFacts.vos Proofs/FideFacts.vos Proofs/FamaFacts.vos Proofs/UvlFacts.vos Proofs/AfmFacts.vos
